@@ -46,6 +46,8 @@ def one_case(ctx, case: dict):
         out_name = 'merged.aeic-store'
         if variant == 'assoc':
             return assoc_case(ctx, d, case)
+        if variant == 'species':
+            return species_case(ctx, d, case)
         tags = build_inputs(d, stores)
         names = [s['name'] for s in stores]
         inputs = list(names)
@@ -157,7 +159,84 @@ def assoc_case(ctx, d, case):
                         detail='associated data of the merged stores is not aligned with the base data')
 
 
+SPECIES_POOL = ['CO2', 'H2O', 'HC', 'CO', 'NOx', 'SO2', 'SO4', 'PMvol']
+
+
+def species_case(ctx, d, case):
+    """Inputs whose species-indexed field recorded different species lists; merged; every trajectory must read back with
+    exactly the species it was stored with."""
+    import numpy as np
+    from AEIC.storage import Dimensions, FieldMetadata, FieldSet
+    from AEIC.trajectories import TrajectoryStore
+    from AEIC.types import Species, SpeciesValues
+
+    if not FieldSet.known('c09_sp'):
+        FieldSet('c09_sp', tot=FieldMetadata(dimensions=Dimensions.from_abbrev('TS'), description='verification species field', units='g'))
+    s0 = RealStore(d)
+    exp, mfiles = [], []
+    for j, st in enumerate(case['stores']):
+        ts = TrajectoryStore.create(base_file=d / f's{j}.nc')
+        rows = []
+        file_species = sorted({sp for a in st['adds'] for sp in a['species']}, key=lambda n: Species[n].value)
+        for a in st['adds']:
+            t = s0.make(a['tag'], a['npts'], None)
+            t.add_fields(FieldSet.from_registry('c09_sp'))
+            vals = {sp: 100 * a['tag'] + q for q, sp in enumerate(a['species'])}
+            t.tot = SpeciesValues({Species[sp]: float(v) for sp, v in vals.items()})
+            ts.add(t)
+            exp.append(sorted(vals.items(), key=lambda kv: Species[kv[0]].value))
+            rows.append([vals.get(sp) for sp in file_species])
+        ts.close()
+        mfiles.append([file_species, rows])
+    gc.collect()
+    res = do_merge(d, 'sp.aeic-store', [f's{j}.nc' for j in range(len(case['stores']))])
+    key = {'variant': 'species', 'layout': [[a['species'] for a in s['adds']] for s in case['stores']]}
+    ctx.case(json.dumps(key, sort_keys=True), nontrivial=len(case['stores']) >= 2,
+             sample={'variant': 'species', 'species': [[a['species'] for a in s['adds']] for s in case['stores']]})
+    ctx.count('variant:species')
+    if res != 'ok':
+        ctx.clause_fail('merge_succeeds', {**case, 'impl_result': res}, detail='merge of stores with species fields failed')
+        return
+    try:
+        ts = TrajectoryStore.open(base_file=d / 'sp.aeic-store', cache_size_mb=case['cache_mb'])
+        got = []
+        for i in range(len(ts)):
+            v = ts[i].tot
+            got.append(sorted(((sp.name, int(round(float(x)))) for sp, x in v.items()), key=lambda kv: Species[kv[0]].value))
+        ts.close()
+    except Exception as e:  # noqa: BLE001
+        ctx.clause_fail('merged_species_per_file', {**case, 'error': err_kind(e)}, detail='reading species values from the merged store failed')
+        return
+    finally:
+        gc.collect()
+    want = [[(k, int(v)) for k, v in e] for e in exp]
+    if got != want:
+        ctx.clause_fail('merged_species_per_file', {**case, 'impl': got, 'expected': want},
+                        detail='species-indexed values of the merged store are not those of the concatenated inputs')
+        return
+    m = ctx.driver.outs([{'op': 'merge.decoded', 'files': mfiles, 'gets': list(range(len(want)))}])[0]
+    if [[(a, b) for a, b in r] for r in m] != want:
+        ctx.diverge('merged species decode: model vs implementation', {**case, 'model': m, 'impl': got})
+
+
 def gen_case(rng):
+    if rng.random() < 0.10:
+        k = int(rng.integers(2, 5))
+        stores, tag = [], 0
+        for j in range(k):
+            adds = []
+            # one species set per store: the species dimension of a file is fixed by its first trajectory (C03)
+            nsp = int(rng.integers(1, 5))
+            sp = [str(x) for x in rng.choice(SPECIES_POOL, size=nsp, replace=False)]
+            for _ in range(int(rng.integers(1, 3))):
+                adds.append({'op': 'add', 'tag': tag, 'npts': 5, 'fid': None, 'species': sp})
+                tag += 1
+            stores.append({'name': f's{j}.nc', 'adds': adds})
+        return {'stores': stores, 'mode': 'list', 'cache_mb': 64, 'variant': 'species'}
+    return gen_case_plain(rng)
+
+
+def gen_case_plain(rng):
     r = rng.random()
     k = int(rng.integers(1, 6))
     indexed = bool(rng.random() < 0.5)
